@@ -128,6 +128,11 @@ def run_extract():
     os.makedirs(tmp)
     rc, so, se, dt = run([os.path.join(BUILD, "extract"), REPO, tmp], timeout=300)
     msg = (so + se).decode(errors="replace")
+    if rc != 0:
+        # keep the previous generated files (other properties' models still build); the caller reports the
+        # broken tie for the properties that rest on generated facts
+        shutil.rmtree(tmp, ignore_errors=True)
+        return False, msg
     with Lock("lean"):
         os.makedirs(gen, exist_ok=True)
         names = set(os.listdir(tmp))
